@@ -11,3 +11,4 @@ from . import c_headers_read  # noqa
 from . import c_producers   # noqa
 from . import c_conversion  # noqa
 from . import c_headers_write  # noqa
+from . import c_reader_init  # noqa
